@@ -429,7 +429,7 @@ func TestC20(t *testing.T) {
 	startAnte()
 	run("wrappers")
 	// exhaustive chains
-	chainDepth := r.N(4, 7)
+	chainDepth := r.N(5, 7)
 	leafs := []*c20Node{leaf("X"), leaf("U"), leaf("V1"), leaf("V2"), leaf("V3"), leaf("S"),
 		grantOf("U"), grantOf("V1"), grantOf("X"), grantOf("S"), wrap("E"), {ty: "E", auth: "-", bad: true}}
 	for d := 0; d <= chainDepth; d++ {
@@ -443,7 +443,7 @@ func TestC20(t *testing.T) {
 		})
 	}
 	// seeded random trees
-	nTx := r.N(6000, 120000)
+	nTx := r.N(20000, 250000)
 	for i := 0; i < nTx; i++ {
 		if i%200 == 0 {
 			startAnte()
@@ -478,7 +478,7 @@ func TestC20(t *testing.T) {
 	}
 
 	// ---- part 2: authority / owner guards
-	nTraces := r.N(8, 120)
+	nTraces := r.N(24, 300)
 	for i := 0; i < nTraces; i++ {
 		run("reset priv")
 		s.priv.generate(run, r.N(260, 400))
